@@ -22,7 +22,7 @@ EXTENDS Naturals, Sequences, FiniteSets
 (* ---------------------------- abstract syntax --------------------------- *)
 Null      == [op |-> "null"]                       \* the empty language
 Eps       == [op |-> "eps"]                        \* { <<>> }
-Any       == [op |-> "any"]                        \* '.'
+AnyChar   == [op |-> "any"]                        \* '.'
 Sym(c)    == [op |-> "sym", c |-> c]
 Cls(S)    == [op |-> "class", cs |-> S]            \* [abc], [a-c]
 Cat(l, r) == [op |-> "cat", l |-> l, r |-> r]
@@ -104,7 +104,7 @@ PAtom(t, p) ==
     IF c = cLPar THEN LET a == PAlt(t, p + 1) IN
                       IF a.ok /\ At(t, a.pos) = cRPar THEN Ok(a.ast, a.pos + 1) ELSE Fail
     ELSE IF c = cLBr THEN PClass(t, p + 1, {}, 0)
-    ELSE IF c = cDot THEN Ok(Any, p + 1)
+    ELSE IF c = cDot THEN Ok(AnyChar, p + 1)
     ELSE IF c = cBsl THEN (IF Escapable(At(t, p + 1)) THEN Ok(Sym(At(t, p + 1)), p + 2) ELSE Fail)
     ELSE IF Literal(c) THEN Ok(Sym(c), p + 1)
     ELSE Fail
@@ -175,7 +175,7 @@ MkChars(S) == IF Cardinality(S) = 1 THEN Sym(CHOOSE c \in S : TRUE) ELSE Cls(S)
 MkOrSet(S) ==
     LET flat  == UNION {Alts(x) : x \in S}
         chars == {x \in flat : IsChars(x)}
-        merged == IF Any \in flat THEN (flat \ chars)
+        merged == IF AnyChar \in flat THEN (flat \ chars)
                   ELSE IF Cardinality(chars) > 1
                        THEN (flat \ chars) \cup {MkChars(UNION {CharsOf(x) : x \in chars})}
                        ELSE flat
